@@ -3,6 +3,7 @@
   source satisfies the side conditions of `fresh_refinement`:
     * `_invalidate` clears every memoised member   (fails while F14a is open: `_components`, `_sim`)
     * `_cpt_add` detaches an overridden component   (fails while F14b is open)
+    * `Node.remove` never raises half way           (fails while the failed-remove defect is open)
   While it does not build, the check reports these theorems as broken obligations; they count as
   explained only if the oracle exhibits the corresponding failing history on the real code.
 -/
@@ -15,6 +16,10 @@ theorem memoised_subset_cleared : ∀ p ∈ config.memoised, config.isCleared p.
 
 /-- re-adding an existing name detaches the old component from its nodes -/
 theorem override_detaches : config.overrideDetaches = true := by decide
+
+/-- `Node.remove` deletes a node only when nothing is connected to it any more, so that
+    `Netlist.remove` cannot raise half way (fails while the failed-remove defect is open) -/
+theorem node_delete_guarded : config.keepConnectedNode = true := by decide
 
 /-- CURRENT CODE, FULL: every query after every exception-free history of public operations
     answers as on a freshly built circuit -/
